@@ -145,8 +145,9 @@ func CompareValues(left r.Element, right r.Element, verb uint8) (bool, error) {
 			if len(vl.value) != len(vr.value) {
 				return false, nil
 			}
-			// cmp each item
-			for idx := range vl.value {
+			// cmp each item - in the left dictionary's own key order, so that the
+			// outcome (false, or the error of an incomparable pair) is the same on every run
+			for _, idx := range vl.keyOrder {
 				// ensure the key exists on vr
 				vrr, ok := vr.value[idx]
 				if !ok {
